@@ -27,7 +27,9 @@ func TestX10Options(t *testing.T) {
 			probes = append(probes, probe{o, n})
 		}
 	}
-	nop := func(ctx context.Context, p peer.ID, m *pubsub.Message) pubsub.ValidationResult { return pubsub.ValidationAccept }
+	nop := func(ctx context.Context, p peer.ID, m *pubsub.Message) pubsub.ValidationResult {
+		return pubsub.ValidationAccept
+	}
 	for i, pbe := range probes {
 		synctest.Test(t, func(t *testing.T) {
 			net := hnet.New(t, 1, false)
